@@ -159,6 +159,20 @@ def programs():
     for n in (0, 1, 4, 1000):
         for tname, ty in (("unit", "()"), ("zst_struct", "Zst"), ("u8", "u8"), ("big", "[u64; 64]")):
             add(f"construct_{n}_{tname}", "const", f"pub fn f() -> usize {{\n    let b: Buf<{ty}> = Buf::new();\n    let d: Buf<{ty}> = Default::default();\n    b.len() + d.len()\n}}\n", "accept", n=n)
+    # 4b. single ownership: a drain is the only handle on the elements it has detached from the buffer, a mutable
+    # iterator the only handle on the elements it has not produced yet, an owning iterator owns its elements - none
+    # of them may be duplicable, and the buffer itself is not Copy
+    for sname, ty, vs in (("drain", "Dr<'static, u8>", ("cb", "vd")), ("drain_string", "Dr<'static, String>", ("cb", "vd")),
+                          ("iter_mut", "ItMut<'static, u8>", ("cb", "vd", "ref"))):
+        add(f"own_{sname}_not_clone", "ownership", f"fn need<X: Clone>() {{}}\nfn f() {{ need::<{ty}>(); }}\n", "reject", variants=vs, twin=f"own_{sname}_sized")
+        add(f"own_{sname}_sized", "ownership", f"fn need<X: Sized>() {{}}\nfn f() {{ need::<{ty}>(); }}\n", "accept", variants=vs)
+    for sname, ty in (("drain", "Dr<'static, u8>"), ("iter_mut", "ItMut<'static, u8>"), ("into_iter", "IntoIt<u8>"), ("buffer", "Buf<u8>"), ("buffer_unit", "Buf<()>")):
+        add(f"own_{sname}_not_copy", "ownership", f"fn need<X: Copy>() {{}}\nfn f() {{ need::<{ty}>(); }}\n", "reject", variants=("cb", "vd"))
+    # a drain hands its elements out by value and destroys the rest, so it may cross threads at most when the
+    # elements may (the crate's Drain is currently neither Send nor Sync at all; only the unsound direction is decided)
+    for ename, ety, tname in (("rc", "std::rc::Rc<u8>", "Send"), ("rc", "std::rc::Rc<u8>", "Sync"), ("mutex_guard", "std::sync::MutexGuard<'static, u8>", "Send"),
+                              ("cell", "std::cell::Cell<u8>", "Sync"), ("raw_ptr", "*const u8", "Send"), ("raw_ptr", "*const u8", "Sync")):
+        add(f"auto_drain_{ename}_{tname.lower()}", "auto-trait", f"fn need<X: {tname}>() {{}}\nfn f() {{ need::<Dr<'static, {ety}>>(); }}\n", "reject", variants=("cb", "vd"))
     # 6. bound-free impls
     add("impl_iter_clone_without_t_clone", "bound-free", "struct NoTraits;\nfn f(it: It<'_, NoTraits>) -> It<'_, NoTraits> { it.clone() }\n", "accept")
     add("impl_iter_default_without_bounds", "bound-free", "struct NoTraits;\nfn f<'a>() -> It<'a, NoTraits> { Default::default() }\n", "accept")
@@ -215,6 +229,45 @@ def build_rlib():
         cc.log(p.stdout[-2000:])
         cc.inconclusive("property=C15: the crate itself does not build")
     return os.path.join(tdir, "release", "libcircular_buffer.rlib"), os.path.join(tdir, "release", "deps")
+
+
+def subset_problems(prefixes, label):
+    """Compiles the witnesses whose names start with one of the prefixes (with their twins); returns
+    (number of compilations, problems) where a problem is (program, why, replay dict)."""
+    rlib, deps = build_rlib()
+    work = os.path.join(cc.OUT, "c15-" + label)
+    os.makedirs(work, exist_ok=True)
+    allp = {p["name"]: p for p in programs()}
+    chosen = [p for p in allp.values() if any(p["name"].startswith(x) for x in prefixes)]
+    names = {p["name"] for p in chosen} | {p["twin"] for p in chosen if p["twin"]}
+    jobs = []
+    for n in sorted(names):
+        p = allp[n]
+        for v in p["variants"]:
+            path = os.path.join(work, f"{n}__{v}.rs")
+            open(path, "w").write(source(p, v))
+            jobs.append((n, v, path))
+    with ThreadPoolExecutor(max_workers=16) as ex:
+        results = list(ex.map(compile_one, [(j[2], rlib, deps) for j in jobs]))
+    res = {(n, v): r for (n, v, _), r in zip(jobs, results)}
+    problems = []
+    for p in chosen:
+        ok, errs = res[(p["name"], "cb")]
+        want_ok = p["expect"] == "accept"
+        why = None
+        for v in p["variants"]:
+            if v != "cb" and res[(p["name"], v)][0] != want_ok:
+                cc.inconclusive(f"witness generator: reference variant {v} of {p['name']} disagrees with the expectation table (toolchain change?)")
+        if ok != want_ok:
+            why = f"the program must be {p['expect']}ed but rustc {'accepts' if ok else 'rejects'} it"
+        elif not ok and not reject_class_ok(errs):
+            why = "the program is rejected, but not for a borrow / lifetime / trait-bound reason (API change or typo?)"
+        elif not ok and p["twin"] and not res[(p["twin"], "cb")][0]:
+            why = "the must-accept twin of this must-reject program does not compile, so the rejection proves nothing"
+        if why:
+            problems.append((p, why, {"program": p["name"], "contract": p["contract"], "expected": p["expect"], "why": why,
+                                      "diagnostics": errs[:5], "source": source(p, "cb"), "twin": p["twin"]}))
+    return len(jobs), problems
 
 
 def run(tier, seed):
@@ -303,7 +356,7 @@ def run(tier, seed):
     sys.exit(0)
 
 
-def replay(path):
+def replay(path, prop="C15"):
     meta = json.load(open(path))
     rlib, deps = build_rlib()
     work = os.path.join(cc.OUT, "c15")
@@ -324,6 +377,6 @@ def replay(path):
             tok, _ = compile_one((tsrc, rlib, deps))
             good = good and tok
     if not good:
-        cc.log(f"VIOLATION property=C15 replay={path}")
+        cc.log(f"VIOLATION property={prop} replay={path}")
         sys.exit(1)
     sys.exit(0)
